@@ -189,6 +189,8 @@ def w_file(task):
     head = "%s\t%s\t%s\t%s\t%s" % (kind, path, fmt_pieces(pieces), digest(P), clens)
     lines = ["F\t" + part + "\t" + head]
     for k, mut in enumerate(muts):
+        if mut[0] == "c" and "." not in mut:
+            mut += ".%d" % (0x55 if data[int(mut[1:])] != 0x55 else 0xAA)
         md = apply_mut(data, mut)
         t, v = reference(kind, md)
         if t == "E":
@@ -419,7 +421,7 @@ def build_corpus(tier, out, jobs):
                 cand |= {e - 1, e, e + 1, e + 10}
             muts = ["t%d" % t for t in sorted(cand) if 0 < t < S]
             data_probe = [S // 3, S - 5, cl[0] // 2, min(S - 1, cl[0] + 5)]
-            muts += ["c%d.%d" % (p, 0x55) for p in sorted(set(data_probe)) if 0 <= p < S]
+            muts += ["c%d" % p for p in sorted(set(data_probe)) if 0 <= p < S]   # value chosen in w_file (must differ)
         ftasks.append((fidx, part, kind, pieces, pidx, muts))
     # big files first so the pool stays busy
     ftasks.sort(key=lambda t: -sum(plen[i] for i in t[4]))
